@@ -300,11 +300,172 @@ def describe_token(alg, atoms):
     return d(alg.normalise(atoms))[:300]
 
 
+def env_exec(repo, cls):
+    """encryptParams(params, key), abstractly executed three times (twice on one request object, once on another) on
+    the byte-string algebra with the curve / AES-GCM library scripted: every generated pair is a new one (pair #n with
+    32 public bytes PUB#n and a private half), an agreement is a 32-byte value named by its two inputs, a sealing a value
+    named by key, nonce, plaintext and associated data.  -> list of problems (strings), or None when it cannot be followed"""
+    from ..absint import Interp, Obj, _Raise, NeedAtom, Budget, DomainGrew, enumerate_cells, show, C_NONE
+    from ..bytealg import BytesAlg
+    PARAMS = [("cc", "49"), ("in", "1512345-6_7~8"), ("id", b"\x00\xffA."), ("lg", "de gr\u00fc\u00df")]
+
+    def run(cell, domains):
+        alg = BytesAlg()
+        hooks = alg.hooks()
+        pairs, ciphers = [], {}
+
+        def lab(v):
+            return v[1] if isinstance(v, tuple) and v and v[0] == "ext" else None
+
+        def gen(it, recv, a, k, env, d, e):
+            n = len(pairs) + 1
+            o = Obj(None)
+            o.fields["privateKey"] = ("ext", "priv#%d" % n, [])
+            o.fields["publicKey"] = ("ext", "pub#%d" % n, [])
+            pairs.append(n)
+            return ("obj", o)
+
+        def pub_bytes(n, it):
+            return ("sym", ("PUB", n), 0, 32)
+
+        def serialize(it, recv, a, k, env, d, e):
+            if lab(recv) and lab(recv).startswith("pub#"):
+                n = int(lab(recv)[4:])
+                alg.base_len[("PUB", n)] = 32
+                return alg.bt(it, [("const", b"\x05"), pub_bytes(n, it)])
+            return None
+
+        def raw(it, recv, a, k, env, d, e):
+            if lab(recv) and lab(recv).startswith("pub#"):
+                n = int(lab(recv)[4:])
+                alg.base_len[("PUB", n)] = 32
+                return alg.bt(it, [pub_bytes(n, it)])
+            return None
+
+        def agree(it, recv, a, k, env, d, e):
+            if len(a) != 2:
+                return None
+            return alg.content(it, ("AGREE", lab(a[0]) or alg.canon(a[0]), lab(a[1]) or alg.canon(a[1])), 32)
+        base_extcall = hooks.get("extcall")
+
+        def extcall(it, label, args, kwargs, env, depth, e):
+            if label.split(".")[-1].rstrip("()") == "AESGCM" and len(args) == 1:
+                v = ("ext", "AESGCM#%d" % (len(ciphers) + 1), [])
+                ciphers[v[1]] = alg.canon(args[0])
+                return v
+            if label.split(".")[-1].rstrip("()") in ("quote", "urllib_quote", "quote_plus", "quote_from_bytes") and args:
+                # the standard library's percent-encoding of a known string / byte string is computed
+                import urllib.parse as _up
+                x = it.force(args[0])
+                xa = alg.atoms_of(x) if x[0] != "c" else None
+                val = x[1] if x[0] == "c" and isinstance(x[1], (str, bytes, bytearray)) else (b"".join(a_[1] for a_ in alg.normalise(xa)) if xa is not None and all(a_[0] == "const" for a_ in xa) else None)
+                safe = kwargs.get("safe", args[1] if len(args) > 1 else ("c", "/"))
+                if val is not None and safe[0] == "c" and isinstance(safe[1], (str, bytes)):
+                    fn_ = _up.quote_plus if label.split(".")[-1].rstrip("()") == "quote_plus" else _up.quote
+                    return ("c", fn_(bytes(val) if not isinstance(val, str) else val, safe=safe[1]))
+            return base_extcall(it, label, args, kwargs, env, depth, e) if base_extcall else None
+
+        def seal(it, recv, a, k, env, d, e):
+            if lab(recv) in ciphers and len(a) == 3:
+                parts = [alg.atoms_of(x) if x != C_NONE else [] for x in a]
+                if parts[1] is None:
+                    return None
+                n = alg.total(alg.normalise(parts[1]))
+                return alg.content(it, ("GCM", ciphers[lab(recv)]) + tuple(tuple(alg.normalise(p_)) if p_ is not None else ("?",) for p_ in parts), (n + 16) if n is not None else None)
+            return None
+        hooks.update({"ext:*.generateKeyPair": gen, "ext:*.serialize": serialize, "ext:*.getPublicKey": raw, "ext:*.calculateAgreement": agree, "extcall": extcall, "ext:*.encrypt": seal})
+        it = Interp(repo, cell, domains, hooks=hooks)
+        it.max_steps = 400000
+        env = {"@module": cls.module, "@owner": cls}
+        KEY = ("ext", "SERVERKEY", [])
+        problems = []
+        objs = [("obj", Obj(cls)), ("obj", Obj(cls))]
+        for i, o in enumerate((objs[0], objs[0], objs[1])):
+            params = ("list", [("list", [("c", k_), ("c", v_)]) for k_, v_ in PARAMS])
+            before = len(pairs)
+            try:
+                want_pt = it.method_call(o, "urlencodeParams", [params], {}, env, 0, None)
+                want_pt = it.force(want_pt)
+                r = it.method_call(o, "encryptParams", [params, KEY], {}, env, 0, None)
+            except _Raise as x:
+                problems.append("call %d raises %s" % (i + 1, (x.text or "")[:60]))
+                break
+            if want_pt[0] != "c" or not isinstance(want_pt[1], str):
+                return None, it
+            made = pairs[before:]
+            # urlencodeParams above generates nothing; the call itself must generate exactly one pair
+            if len(made) != 1:
+                problems.append("call %d generates %d key pair(s): every request needs exactly one pair of its own%s" % (i + 1, len(made), " (an earlier pair is used again)" if not made and pairs else ""))
+                break
+            n = made[0]
+            r = it.force(r)
+            items = it.iterate(r) if r[0] in ("list", "c") else None
+            pair = it.iterate(it.force(items[0])) if items and len(items) == 1 else None
+            if not pair or len(pair) != 2 or pair[0] != ("c", "ENC"):
+                problems.append("call %d returns %s, not [('ENC', payload)]" % (i + 1, show(r)[:60]))
+                break
+            got = alg.atoms_of(it.force(pair[1]))
+            agree_nm = ("AGREE", "SERVERKEY", "priv#%d" % n)
+            gcm = ("GCM", (("sym", agree_nm, 0, 32),), (("const", bytes(12)),), (("const", want_pt[1].encode()),), ())
+            ct_len = len(want_pt[1].encode()) + 16
+            want = [("sym", ("B64", (("sym", ("PUB", n), 0, 32), ("sym", gcm, 0, ct_len))), 0, 4 * ((32 + ct_len + 2) // 3))]
+            if got is None or alg.normalise(got) != want:
+                problems.append("call %d: the payload is  %s  - the format is  base64(PUB#%d[0:32] || GCM(key agreement(server key, priv#%d), 12 zero bytes, urlencodeParams(params), no associated data))" % (i + 1, describe_env(alg, got) if got is not None else show(pair[1])[:80], n, n))
+                break
+        return (problems, list(alg.notes)), it
+    try:
+        cells = enumerate_cells(run, {}, max_cells=32)
+    except (Budget, NeedAtom, DomainGrew):
+        return None
+    out = []
+    for _c, r in cells:
+        if r is None or r[1]:
+            return None
+        out += r[0]
+    return sorted(set(out))
+
+
+def describe_env(alg, atoms):
+    def d(atoms):
+        out = []
+        for a in atoms:
+            if a[0] == "const":
+                out.append("%d const byte(s) %s" % (len(a[1]), a[1][:12].hex()))
+            elif a[0] == "sym":
+                nm = a[1]
+                rng = "[%s:%s]" % (a[2], a[2] + a[3] if a[3] is not None else "?")
+                if isinstance(nm, tuple) and nm[0] == "B64":
+                    out.append("base64(%s)" % d(nm[1]))
+                elif isinstance(nm, tuple) and nm[0] == "GCM":
+                    out.append("GCM(key %s, nonce %s, plaintext %s, aad %s)%s" % (d(nm[1]) if isinstance(nm[1], tuple) and nm[1] and isinstance(nm[1][0], tuple) else nm[1], d(nm[2]), d(nm[3])[:40], d(nm[4]), rng))
+                elif isinstance(nm, tuple) and nm[0] == "AGREE":
+                    out.append("agreement(%s, %s)" % (nm[1], nm[2]))
+                elif isinstance(nm, tuple) and nm[0] == "PUB":
+                    out.append("PUB#%d%s" % (nm[1], rng))
+                else:
+                    out.append("%s%s" % (nm[0] if isinstance(nm, tuple) else nm, rng))
+            else:
+                out.append(str(a[0]))
+        return " || ".join(out) or "nothing"
+    return d(alg.normalise(atoms))[:400]
+
+
 def rule_env(ctx):
     repo = ctx.repo
     cls = repo.cls(REQ, "WARequest")
     fn = repo.method(REQ, "WARequest", "encryptParams")
     w = where(REQ, "WARequest.encryptParams", fn.lineno)
+    probs = env_exec(repo, cls)
+    if probs is not None:
+        # decided by execution: three requests in a row, each payload compared with the format as a value
+        for label in ("one new ephemeral pair per request (three requests, two on one object)", "AES-GCM keyed with agreement(server key parameter, private half of that pair)",
+                      "nonce: 12 zero bytes; no associated data", "plaintext = urlencodeParams(params).encode()", "payload = base64(public half of the same pair, without type byte || ciphertext)"):
+            ctx.check("C20.env", not probs, w, label, "; ".join(probs[:2]), "as the format requires")
+        sg = repo.method(REQ, "WARequest", "sendGetRequest")
+        calls = [c for c in ast.walk(sg) if isinstance(c, ast.Call) and is_self_attr(c.func, "encryptParams")]
+        ok = len(calls) == 1 and [unparse(a) for a in calls[0].args] == ["self.params", "self.ENC_PUBKEY"]
+        ctx.check("C20.env", ok, where(REQ, "WARequest.sendGetRequest", sg.lineno), calls[0] if calls else sg, "sendGetRequest must encrypt self.params under self.ENC_PUBKEY", "encryptParams(self.params, self.ENC_PUBKEY)")
+        return
     from ..repo import inline_private_calls
     from ..normalize import guarded_returns_to_ifexp
     fn = inline_private_calls(repo, cls, fn, helper_transform=guarded_returns_to_ifexp)     # a private sealing helper is part of the envelope
